@@ -48,7 +48,13 @@ package requests
 
 // Enqueue: refuses exactly the blocks that are already queued or outstanding.
 //@ func (*Requests).Enqueue
-//@   requires rs != nil && ROK(rs)
+//@   requires rs != nil
+//@   requires [rbitsq] RBitsQ(rs)
+//@   requires [rbitsr] RBitsR(rs)
+//@   requires [rdistq] RDistQ(rs)
+//@   requires [rdistr] RDistR(rs)
+//@   requires [rdistqr] RDistQR(rs)
+//@   requires [rsep] RSep(rs)
 //@   modifies rs.queue, rs.queue[__], rs.bitmap, rs.bitmap[__]
 //@   ensures  [dup]    $r0 == !old(Member(rs, int(index)))
 //@   ensures  [queued] $r0 ==> len(rs.queue) == old(len(rs.queue)) + 1 && rs.queue[len(rs.queue)-1].index == index && Member(rs, int(index))
@@ -66,7 +72,13 @@ package requests
 // bit is cleared: the caller either sends it and calls EnqueueRequest, or
 // drops it).
 //@ func (*Requests).Dequeue
-//@   requires rs != nil && ROK(rs) && len(rs.queue) > 0
+//@   requires rs != nil && len(rs.queue) > 0
+//@   requires [rbitsq] RBitsQ(rs)
+//@   requires [rbitsr] RBitsR(rs)
+//@   requires [rdistq] RDistQ(rs)
+//@   requires [rdistr] RDistR(rs)
+//@   requires [rdistqr] RDistQR(rs)
+//@   requires [rsep] RSep(rs)
 //@   modifies rs.queue, rs.bitmap[_]
 //@   ensures  [head]   $r1 == old(rs.queue[0].index) && $r0.index == $r1
 //@   ensures  [out]    !Member(rs, int($r1))
@@ -83,7 +95,14 @@ package requests
 // EnqueueRequest: records a request as outstanding; only legal for a block
 // that is not a member (the code panics otherwise).
 //@ func (*Requests).EnqueueRequest
-//@   requires rs != nil && ROK(rs) && !Member(rs, int(r.index))
+//@   requires rs != nil
+//@   requires [fresh] !Member(rs, int(r.index))
+//@   requires [rbitsq] RBitsQ(rs)
+//@   requires [rbitsr] RBitsR(rs)
+//@   requires [rdistq] RDistQ(rs)
+//@   requires [rdistr] RDistR(rs)
+//@   requires [rdistqr] RDistQR(rs)
+//@   requires [rsep] RSep(rs)
 //@   modifies rs.requested, rs.requested[__], rs.bitmap, rs.bitmap[__]
 //@   ensures  [len]    len(rs.requested) == old(len(rs.requested)) + 1 && len(rs.queue) == old(len(rs.queue)) && rs.requested[len(rs.requested)-1].index == r.index
 //@   ensures  [in]     Member(rs, int(r.index))
@@ -98,7 +117,13 @@ package requests
 // del: removes the block from whichever list holds it and clears its bit;
 // nothing else changes membership.
 //@ func (*Requests).del
-//@   requires rs != nil && ROK(rs)
+//@   requires rs != nil
+//@   requires [rbitsq] RBitsQ(rs)
+//@   requires [rbitsr] RBitsR(rs)
+//@   requires [rdistq] RDistQ(rs)
+//@   requires [rdistr] RDistR(rs)
+//@   requires [rdistqr] RDistQR(rs)
+//@   requires [rsep] RSep(rs)
 //@   modifies rs.requested, rs.requested[_], rs.queue, rs.queue[_], rs.bitmap[_]
 //@   ensures  [absent] !old(Member(rs, int(index))) ==> !$r0 && !$r1 && len(rs.queue) == old(len(rs.queue)) && len(rs.requested) == old(len(rs.requested))
 //@   ensures  [sent]   $r1 ==> !$r0 && len(rs.requested) == old(len(rs.requested)) - 1 && len(rs.queue) == old(len(rs.queue)) && !Member(rs, int(index))
@@ -120,7 +145,13 @@ package requests
 
 // Cancel: marks, never removes: membership and both lists keep their blocks.
 //@ func (*Requests).Cancel
-//@   requires rs != nil && ROK(rs)
+//@   requires rs != nil
+//@   requires [rbitsq] RBitsQ(rs)
+//@   requires [rbitsr] RBitsR(rs)
+//@   requires [rdistq] RDistQ(rs)
+//@   requires [rdistr] RDistR(rs)
+//@   requires [rdistqr] RDistQR(rs)
+//@   requires [rsep] RSep(rs)
 //@   modifies heap:E:github.com/jech/storrent/peer/requests.Request.ctime*
 //@   ensures  [found]  $r0 ==> Member(rs, int(index))
 //@   ensures  [send]   $r1 ==> $r0
@@ -136,7 +167,13 @@ package requests
 // reporting every forgotten block exactly once to f; the bitmap is rebuilt
 // from what remains.
 //@ func (*Requests).Clear
-//@   requires rs != nil && ROK(rs) && f != nil
+//@   requires rs != nil && f != nil
+//@   requires [rbitsq] RBitsQ(rs)
+//@   requires [rbitsr] RBitsR(rs)
+//@   requires [rdistq] RDistQ(rs)
+//@   requires [rdistr] RDistR(rs)
+//@   requires [rdistqr] RDistQR(rs)
+//@   requires [rsep] RSep(rs)
 //@   callback f pure
 //@   modifies rs.queue, rs.requested, rs.bitmap, heap:A:uint8
 //@   ensures  [queue]  len(rs.queue) == 0
